@@ -1,6 +1,10 @@
 From Coq Require Import List ZArith NArith Bool Lia Arith.
-From Scalibr Require Import Semantic.Cmp Semantic.LexPad Semantic.Bytes Semantic.Maven.
+From Scalibr Require Import Semantic.Cmp Semantic.LexPad Semantic.Bytes Semantic.Generated_Tables Semantic.Maven.
 Import ListNotations.
+
+(* the generated "empty padding" table is exactly {"sp"} *)
+Lemma empty_pad_is_sp : forall v, str_in v gen_maven_empty_dot_padding_for = bytes_eqb v s_sp.
+Proof. intros v. unfold str_in, gen_maven_empty_dot_padding_for. cbn [existsb]. apply orb_false_r. Qed.
 
 (* ------------------------------------------------------------------ never panics *)
 Lemma tok_lt_no_panic : forall x y, tok_lt x y <> Panic.
@@ -13,7 +17,7 @@ Proof.
 Qed.
 
 Lemma null_of_no_panic : forall x, null_of x <> Panic.
-Proof. intros x. unfold null_of. repeat match goal with |- context [if ?c then _ else _] => destruct c end; discriminate. Qed.
+Proof. intros x. unfold null_of. rewrite ?empty_pad_is_sp. repeat match goal with |- context [if ?c then _ else _] => destruct c end; discriminate. Qed.
 
 Lemma lt_loop_no_panic : forall n a b, lt_loop n a b <> Panic.
 Proof.
@@ -102,7 +106,9 @@ Lemma kw_idx_cases : forall s,
   (kw_idx s = 3 /\ s = kw_rc) \/ (kw_idx s = 4 /\ s = kw_snapshot) \/ (kw_idx s = 5 /\ s = []) \/
   (kw_idx s = 6 /\ s = s_sp) \/ kw_idx s = 7.
 Proof.
-  intros s. unfold kw_idx, keyword_order. cbn [find_idx].
+  intros s. unfold kw_idx, keyword_order.
+  (* the generated table must be exactly this list: reordering keywordOrder in Go breaks the proof here *)
+  change gen_maven_keyword_order with [kw_alpha; kw_beta; kw_milestone; kw_rc; kw_snapshot; []; s_sp]. cbn [find_idx].
   destruct (bytes_eqb kw_alpha s) eqn:E0; [apply bytes_eqb_eq in E0; subst; tauto|].
   destruct (bytes_eqb kw_beta s) eqn:E1; [apply bytes_eqb_eq in E1; subst; tauto|].
   destruct (bytes_eqb kw_milestone s) eqn:E2; [apply bytes_eqb_eq in E2; subst; tauto|].
@@ -145,7 +151,6 @@ Lemma canon_inj : forall s t z, canon_value s = true -> canon_value t = true ->
   big_of_string s = Some z -> big_of_string t = Some z -> s = t.
 Proof.
   intros s t z Cs Ct Es Et. unfold canon_value in *. rewrite Es in Cs. rewrite Et in Ct.
-  apply andb_true_iff in Cs as [_ Cs]. apply andb_true_iff in Ct as [_ Ct].
   apply bytes_eqb_eq in Cs, Ct. congruence.
 Qed.
 
@@ -197,7 +202,7 @@ Definition ogood (o : option mtok) : bool := match o with Some t => canon_value 
 
 Lemma null_of_canon : forall x r, null_of x = Ok r -> canon_value (mt_value r) = true.
 Proof.
-  intros x r. unfold null_of.
+  intros x r. unfold null_of. rewrite ?empty_pad_is_sp.
   destruct (bytes_eqb (mt_prefix x) s_dot).
   - destruct (bytes_eqb (mt_value x) s_sp); intros H; injection H as <-; reflexivity.
   - destruct (bytes_eqb (mt_prefix x) s_dash); intros H; [injection H as <-; reflexivity | discriminate].
@@ -261,7 +266,7 @@ Proof. intros l r. unfold pair_cmp. destruct (tok_equal l r); [reflexivity|]. de
 Lemma pad_equal_trims : forall y l, null_of y = Ok l -> tok_equal l y = true -> should_trim y = true.
 Proof.
   intros y l N E. unfold tok_equal in E. apply andb_true_iff in E as [_ E]. apply bytes_eqb_eq in E.
-  unfold null_of in N. unfold should_trim. rewrite <- E.
+  unfold null_of in N. rewrite ?empty_pad_is_sp in N. unfold should_trim. rewrite <- E.
   destruct (bytes_eqb (mt_prefix y) s_dot).
   - injection N as <-. cbn [mt_value]. destruct (bytes_eqb (mt_value y) s_sp); reflexivity.
   - destruct (bytes_eqb (mt_prefix y) s_dash); [|discriminate]. injection N as <-. reflexivity.
@@ -391,20 +396,19 @@ Proof.
   destruct d; do 8 (destruct i as [|i]; [do 8 (destruct j as [|j]; [reflexivity|]); lia|]); lia.
 Qed.
 
-Definition dgood (t : mtok) : bool := tok_wf t && dot_qual_ok t.
+Definition dgood (t : mtok) : bool := tok_wf t && (dot_qual_ok t && num_nonneg t).
 
 Lemma dgood_facts : forall t, dgood t = true ->
   mt_null t = false /\ canon_value (mt_value t) = true /\
-  (is_dot t = true -> big_of_string (mt_value t) = None -> kw_idx (mt_value t) < 6).
+  (is_dot t = true -> big_of_string (mt_value t) = None -> kw_idx (mt_value t) < 6) /\
+  (forall z, big_of_string (mt_value t) = Some z -> (0 <= z)%Z).
 Proof.
-  intros t H. unfold dgood, tok_wf, dot_qual_ok in H.
-  apply andb_true_iff in H as [H D]. apply andb_true_iff in H as [N C].
+  intros t H. unfold dgood, tok_wf, dot_qual_ok, num_nonneg in H.
+  apply andb_true_iff in H as [H D]. apply andb_true_iff in H as [N C]. apply andb_true_iff in D as [D NN].
   apply negb_true_iff in N. repeat split; try assumption.
-  intros Dt B. unfold is_dot in Dt. rewrite Dt, B in D. simpl in D. apply Nat.ltb_lt in D. exact D.
+  - intros Dt B. unfold is_dot in Dt. rewrite Dt, B in D. simpl in D. apply Nat.ltb_lt in D. exact D.
+  - intros z E. rewrite E in NN. apply Z.leb_le in NN. exact NN.
 Qed.
-
-Lemma canon_nonneg : forall s z, canon_value s = true -> big_of_string s = Some z -> (0 <= z)%Z.
-Proof. intros s z C E. unfold canon_value in C. rewrite E in C. apply andb_true_iff in C as [C _]. apply Z.leb_le in C. exact C. Qed.
 
 Lemma thenc_eq_r' : forall c, thenc c Eq = c. Proof. destruct c; reflexivity. Qed.
 
@@ -444,7 +448,7 @@ Lemma pair_cmp_key : forall x y, dgood x = true -> dgood y = true ->
   bytes_eqb (mt_prefix x) (mt_prefix y) = true -> pair_cmp x y = Ok (mkey_cmp (tkey x) (tkey y)).
 Proof.
   intros x y Gx Gy P.
-  destruct (dgood_facts x Gx) as (Nx & Cx & Dx). destruct (dgood_facts y Gy) as (Ny & Cy & Dy).
+  destruct (dgood_facts x Gx) as (Nx & Cx & Dx & Px). destruct (dgood_facts y Gy) as (Ny & Cy & Dy & Py).
   assert (is_dot x = is_dot y) as ED by (unfold is_dot; apply bytes_eqb_eq in P; rewrite P; reflexivity).
   unfold pair_cmp, tok_equal. rewrite P. cbn [andb].
   destruct (bytes_eqb (mt_value x) (mt_value y)) eqn:EV.
@@ -453,7 +457,7 @@ Proof.
     fold (qual_lt (mt_value x) (mt_value y)).
     destruct (big_of_string (mt_value x)) as [a|] eqn:Ea; destruct (big_of_string (mt_value y)) as [c|] eqn:Ec; cbn [is_some andb].
     + (* numbers *)
-      pose proof (canon_nonneg _ _ Cx Ea) as Pa. pose proof (canon_nonneg _ _ Cy Ec) as Pc.
+      pose proof (Px _ eq_refl) as Pa. pose proof (Py _ eq_refl) as Pc.
       assert (a <> c) as N by (intros ->; apply EV; eapply canon_inj; eauto).
       cbn [lift]. unfold mkey_cmp, lexprod, mzero.
       destruct (is_dot x); cbn [andb];
@@ -489,11 +493,11 @@ Lemma kw_idx_empty : kw_idx [] = 5. Proof. reflexivity. Qed.
 Lemma pad_cmp_key : forall x, dgood x = true -> rest_prefix_ok x = true ->
   pos_cmp (Some x) None = Ok (mkey_cmp (tkey x) mzero) /\ pos_cmp None (Some x) = Ok (mkey_cmp mzero (tkey x)).
 Proof.
-  intros x Gx Px. destruct (dgood_facts x Gx) as (Nx & Cx & Dx).
+  intros x Gx Px. destruct (dgood_facts x Gx) as (Nx & Cx & Dx & NNx).
   assert (pos_cmp None (Some x) = oppO (pos_cmp (Some x) None)) as AS by (apply pos_cmp_antisym; [exact Cx | reflexivity]).
   assert (pos_cmp (Some x) None = Ok (mkey_cmp (tkey x) mzero)) as K.
   2:{ split; [exact K|]. rewrite AS, K. simpl. rewrite <- (tp_antisym _ mkey_cmp_tp). reflexivity. }
-  clear AS. unfold pos_cmp, null_of, rest_prefix_ok in *.
+  clear AS. unfold pos_cmp, null_of, rest_prefix_ok in *. rewrite ?empty_pad_is_sp.
   destruct (bytes_eqb (mt_prefix x) s_dot) eqn:Dt.
   - (* '.' : padding is a null "0" (the value cannot be "sp" inside D) *)
     assert (bytes_eqb (mt_value x) s_sp = false) as NS.
@@ -502,7 +506,7 @@ Proof.
     rewrite NS. cbn [obind]. unfold pair_cmp, tok_equal. cbn [mt_prefix mt_value]. rewrite Dt. cbn [andb].
     unfold tkey, is_dot. rewrite Dt.
     destruct (big_of_string (mt_value x)) as [a|] eqn:Ea.
-    + pose proof (canon_nonneg _ _ Cx Ea) as Pa.
+    + pose proof (NNx _ eq_refl) as Pa.
       destruct (bytes_eqb (mt_value x) s_zero) eqn:EZ.
       * apply bytes_eqb_eq in EZ. rewrite EZ in Ea. cbv in Ea. injection Ea as <-. reflexivity.
       * assert (a <> 0%Z) as N.
@@ -581,7 +585,7 @@ Proof.
   repeat split; try assumption.
   - unfold dgood. rewrite WFh, Dh. reflexivity.
   - apply forallb_forall. intros x I. rewrite forallb_forall in PT, WFt, Dt.
-    unfold tailgood, dgood. rewrite (WFt x I), (Dt x I), (PT x I). reflexivity.
+    unfold tailgood, dgood. rewrite (WFt x I), (PT x I). specialize (Dt x I). cbv beta in Dt. rewrite Dt. reflexivity.
 Qed.
 
 Lemma cmp_maven_on_D : forall v w, valid_maven v = true -> valid_maven w = true ->
